@@ -21,9 +21,61 @@ import (
 func init() {
 	monitors["C04"] = monC04
 	preludes["C04"] = func(c *child.Ctx) {
+		// the very first decodes of this process: eight goroutines, frames prepared
+		// beforehand, released together
+		r := ref.NewRand(c.Seed*31 + uint64(c.Batch)*131 + 4)
+		type job struct {
+			m *ref.MSM
+			f []byte
+		}
+		var jobs [8][]job
+		for g := range jobs {
+			for len(jobs[g]) < 40 {
+				m := gen.RandMSM(r, gen.MSMOpts{Type: ref.MSMTypes[(g+len(jobs[g]))%len(ref.MSMTypes)]})
+				if p := ref.EncodeMSM(m); len(p) <= 1023 {
+					jobs[g] = append(jobs[g], job{m, ref.Frame(p)})
+				}
+			}
+		}
+		start := make(chan struct{})
+		var wg sync.WaitGroup
+		var bad atomic.Value
+		for g := range jobs {
+			wg.Add(1)
+			go func(g int) {
+				defer wg.Done()
+				<-start
+				for _, j := range jobs[g] {
+					var why string
+					func() {
+						defer func() {
+							if x := recover(); x != nil {
+								why = fmt.Sprintf("panic: %v", x)
+							}
+						}()
+						direct, _, errText := decodeMSMBothWays(j.f, ref.IsMSM7(j.m.Type), slog.LevelInfo)
+						if direct == nil {
+							why = "well-formed message rejected: " + errText
+							return
+						}
+						why = compareMSM(j.m, direct)
+					}()
+					if why != "" {
+						cj, _ := json.Marshal(msmCase{M: j.m, Pads: []int{j.m.PadBytes}})
+						bad.Store([2]string{"among the very first decodes of a process, made by eight goroutines at the same time: " + why, string(cj)})
+						return
+					}
+				}
+			}(g)
+		}
+		close(start)
+		wg.Wait()
+		if v := bad.Load(); v != nil {
+			c.Violate("decode-mismatch", v.([2]string)[0], []byte(v.([2]string)[1]))
+		}
+		c.Count("processes_whose_first_decodes_were_side_by_side", 1)
 		if c.Batch%2 == 1 {
-			c04ConcurrentDecodes(c, ref.NewRand(c.Seed*31+uint64(c.Batch)*131+4))
-			c.Count("processes_whose_first_decodes_were_side_by_side", 1)
+			c04ConcurrentDecodes(c, r)
 		}
 	}
 }
